@@ -178,6 +178,62 @@ theorem readlist_eq_reads (s : Stream) (ts : List Tok) (hi : Inv s)
     step s (.readlist ts) = ({ s with pos := p }, .vals vs) ↔ readSeq s ts = .ok (vs, p) :=
   readlist_eq_reads' s ts hi ho vs p
 
+/-- `readlist` with exactly one stretchy (length-less) token `k` at any place — `pre` without a stretchy token before
+    it, fixed-length tokens `post` (`afterBits post` bits in all) after it — succeeds exactly when the successive single
+    reads succeed in which the stretchy token is read as `k:items` with
+    `items * bits_per_item = max(remaining_at_that_point - afterBits post, 0)`; same values (pad dropped), same final
+    position.  This is the two-pass arithmetic of `_read_dtype_list` (`bits_after_stretchy_token`, `divmod`). -/
+theorem readlist_eq_reads_stretchy (s : Stream) (pre post : List Tok) (k : Kind) (hi : Inv s)
+    (hpre : ∀ t ∈ pre, t.isOpen = false) (hk : (Tok.stretchy k).isOpen = true)
+    (hpost : ∀ t ∈ post, t.isFixedLen = true) (vs : List Val) (p : Int) :
+    step s (.readlist (pre ++ .stretchy k :: post)) = ({ s with pos := p }, .vals vs)
+      ↔ readSeqStretchy s pre k post = .ok (vs, p) := by
+  rw [step_eq_core s _ (by intro h; cases h), readlist_step_iff]
+  exact readlist_stretchy_iff s pre post k hi hpre hk hpost vs p
+
+/-- …and such a list, when it succeeds, consumes everything up to the end of the stream: pos advances by
+    (bits of `pre`) + max(remaining − after, 0) + after = all that was left. -/
+theorem readlist_stretchy_consumes_all (s : Stream) (pre post : List Tok) (k : Kind) (hi : Inv s)
+    (hpre : ∀ t ∈ pre, t.isOpen = false) (hk : (Tok.stretchy k).isOpen = true)
+    (hpost : ∀ t ∈ post, t.isFixedLen = true) (vs : List Val) (p : Int)
+    (h : step s (.readlist (pre ++ .stretchy k :: post)) = ({ s with pos := p }, .vals vs)) : p = s.len :=
+  readSeqStretchy_consumes_all s pre post k hi hpre hpost vs p
+    ((readlist_eq_reads_stretchy s pre post k hi hpre hk hpost vs p).1 h)
+
+/-- The bits left for the stretchy token are not a whole number of items (`bytes`): ValueError, nothing moves
+    (provided the tokens before it read and the tokens after it are well-formed dtypes — otherwise those errors come first). -/
+theorem readlist_stretchy_remainder (s : Stream) (pre post : List Tok) (k : Kind) (hi : Inv s)
+    (hpre : ∀ t ∈ pre, t.isOpen = false) (hk : (Tok.stretchy k).isOpen = true)
+    (hpost : ∀ t ∈ post, t.isFixedLen = true) (vs1 : List Val) (p1 : Int)
+    (h : readSeq s pre = .ok (vs1, p1)) (hc : ∃ dpost, toDTs post = .ok dpost)
+    (hrem : (max (s.len - p1 - afterBits post) 0) % k.mult ≠ 0) :
+    step s (.readlist (pre ++ .stretchy k :: post)) = (s, .err .value) := by
+  rw [step_eq_core s _ (by intro h; cases h)]
+  simp only [stepCore, readlist_stretchy_rem s pre post k hi hpre hk hpost vs1 p1 h hc hrem]
+
+/-- A token that is not a valid dtype (e.g. `hex:6`, a negative count) anywhere in the list: its ValueError comes
+    before anything is read or counted. -/
+theorem readlist_bad_token (s : Stream) (ts : List Tok) (e : Err) (h : toDTs ts = .error e) :
+    step s (.readlist ts) = (s, .err e) := by
+  rw [step_eq_core s _ (by intro h; cases h)]
+  simp only [stepCore, readList, h]
+
+/-- Two stretchy tokens (all tokens being valid dtypes): `bitstring.Error`, nothing moves, wherever they stand. -/
+theorem readlist_two_stretchy (s : Stream) (a b c : List Tok) (k1 k2 : Kind)
+    (h1 : (Tok.stretchy k1).isOpen = true) (h2 : (Tok.stretchy k2).isOpen = true)
+    (hc : ∃ ds, toDTs (a ++ .stretchy k1 :: (b ++ .stretchy k2 :: c)) = .ok ds) :
+    step s (.readlist (a ++ .stretchy k1 :: (b ++ .stretchy k2 :: c))) = (s, .err .bitstring) := by
+  rw [step_eq_core s _ (by intro h; cases h)]
+  simp only [stepCore, readList_block_after_stretchy s.bits s.pos a k1 b _ c h1 (Or.inl h2) hc]
+
+/-- A self-delimiting token anywhere after a stretchy one (all tokens being valid dtypes): `bitstring.Error`. -/
+theorem readlist_var_after_stretchy (s : Stream) (a b c : List Tok) (k : Kind) (v : VKind)
+    (h1 : (Tok.stretchy k).isOpen = true)
+    (hc : ∃ ds, toDTs (a ++ .stretchy k :: (b ++ .var v :: c)) = .ok ds) :
+    step s (.readlist (a ++ .stretchy k :: (b ++ .var v :: c))) = (s, .err .bitstring) := by
+  rw [step_eq_core s _ (by intro h; cases h)]
+  simp only [stepCore, readList_block_after_stretchy s.bits s.pos a k b _ c h1 (Or.inr rfl) hc]
+
 /-- `readto`: on success the position is just after the first occurrence at or after the old position, and the
     returned stream (its own pos 0) is everything from the old position to there. -/
 theorem readto_ok (s s' : Stream) (pat : Bits) (al : Bool) (v : Val) (hi : Inv s)
@@ -387,6 +443,20 @@ example : step ⟨true, [true, false, true], 1⟩ (.insert [false, false] none)
     = (⟨true, [true, false, false, false, true], 3⟩, .unit) := by decide
 example : step ⟨false, [true, false, true, true], 0⟩ (.readto [true, true] false)
     = (⟨false, [true, false, true, true], 4⟩, .val (.stream [true, false, true, true] 0)) := by decide
+
+example : readSeqStretchy ⟨false, [true, false, true, true, false, false, true, true, true, false, false, false], 1⟩
+    [.fixed .uint 2] .bytes [.count 1] = .ok ([.int 1, .bytes [true, false, false, true, true, true, false, false], .stream [false] 0], 12) := by
+  decide
+example : step ⟨false, [true, false, true, true, false, false, true, true, true, false, false, false], 1⟩
+    (.readlist ([.fixed .uint 2] ++ .stretchy .bytes :: [.count 1]))
+    = (⟨false, [true, false, true, true, false, false, true, true, true, false, false, false], 12⟩,
+       .vals [.int 1, .bytes [true, false, false, true, true, true, false, false], .stream [false] 0]) := by decide
+example : step ⟨false, [true, false, true, true], 0⟩ (.readlist ([] ++ .stretchy .bytes :: [.count 1]))
+    = (⟨false, [true, false, true, true], 0⟩, .err .value) := by decide
+example : step ⟨false, [true, false, true, true], 0⟩ (.readlist ([] ++ .stretchy .bin :: ([.count 1] ++ .stretchy .hex :: [])))
+    = (⟨false, [true, false, true, true], 0⟩, .err .bitstring) := by decide
+example : step ⟨false, [true, false, true, true], 0⟩ (.readlist ([] ++ .stretchy .bin :: ([] ++ .var .ue :: [])))
+    = (⟨false, [true, false, true, true], 0⟩, .err .bitstring) := by decide
 
 /-! ## regression: the four fixed findings (witness lines of known_findings.d/C06.json) -/
 example : step ⟨false, List.replicate 16 true, 0⟩ (.readlist [.count (-1)])
